@@ -182,6 +182,17 @@ func expectedSum(t sumTree, dir string, sel int, from, until, now int64, c *fw.C
 				continue
 			}
 			vals := acc[ai].Values()
+			if len(ts[ai].Values()) != len(vals) || ts[ai].FromTime() != acc[ai].FromTime() || ts[ai].Step() != acc[ai].Step() {
+				// files of one layout, one window, one clock: the library must give their series one shape (C04); a sum
+				// over them cannot be formed otherwise
+				if c != nil {
+					c.Violationf("files-of-one-layout-fetch-different-shapes", fw.J{"item": dir, "file": n, "archive": ai, "from": from, "until": until, "now": now,
+						"first_file_shape": fmt.Sprintf("from %d step %d n=%d", acc[ai].FromTime(), acc[ai].Step(), len(vals)),
+						"this_file_shape":  fmt.Sprintf("from %d step %d n=%d", ts[ai].FromTime(), ts[ai].Step(), len(ts[ai].Values()))},
+						"item %s archive %d window [%d,%d]: file %s is fetched with another shape than the first file of the item", dir, ai, from, until, n)
+				}
+				return acc, false
+			}
 			for j, v := range ts[ai].Values() {
 				switch {
 				case math.IsNaN(float64(vals[j])):
